@@ -129,7 +129,14 @@ def run_history(case):
                 free = [p for p in paths if p not in observed]
                 gsel = selref.to_genjax(_or([["tup", list(p)] for p in free])) if free else selref.to_genjax(["none"])
                 keys = jax.random.split(k, n)
-                vtr = impl(jax.vmap(lambda kk: seed(gf.regenerate)(kk, tr, gsel, *a, **kw)[0]), keys)
+                if op.get("per_lane_args") and len(a) >= 1:
+                    # a vectorized trace whose lanes record *different* arguments (as after an SMC extend with per-particle
+                    # arguments): update with a per-lane shift of the first argument
+                    deltas = jnp.asarray(np.asarray([0.0, 0.5, -0.75, 1.25], dtype=np.float32)[:n])
+                    vtr = impl(jax.vmap(lambda d: gf.update(tr, None, a[0] + d, *a[1:], **kw)[0]), deltas)
+                    info["kinds"].append("vector_per_lane_args")
+                else:
+                    vtr = impl(jax.vmap(lambda kk: seed(gf.regenerate)(kk, tr, gsel, *a, **kw)[0]), keys)
                 if how == "index":
                     tr = jax.tree_util.tree_map(lambda x: x[op["i"] % n], vtr)
                 else:
@@ -181,7 +188,7 @@ def histories(force=None, max_ops=6):
             st.fixed_dictionaries({"op": st.just("mala"), "which": st.lists(st.integers(0, 7), min_size=1, max_size=3), "eps": st.sampled_from([0.05, 0.2, 0.7])}),
             st.fixed_dictionaries({"op": st.just("hmc"), "which": st.lists(st.integers(0, 7), min_size=1, max_size=3), "eps": st.sampled_from([0.05, 0.2]), "L": st.integers(1, 3)}),
             st.fixed_dictionaries({"op": st.just("jit")}),
-            st.fixed_dictionaries({"op": st.just("vector"), "n": st.integers(2, 4), "i": st.integers(0, 3), "how": st.sampled_from(["index", "categorical", "systematic"]),
+            st.fixed_dictionaries({"op": st.just("vector"), "n": st.integers(2, 4), "i": st.integers(0, 3), "how": st.sampled_from(["index", "categorical", "systematic"]), "per_lane_args": st.booleans(),
                                    "logw": st.lists(st.sampled_from([0.0, -1.0, -3.0, 2.0]), min_size=4, max_size=4)}),
         )
         return {**p, "key": draw(st.integers(0, 2**30)), "gen_subset": [list(q) for q in draw(sub)], "ops": draw(st.lists(op, min_size=3, max_size=max_ops))}
